@@ -68,6 +68,14 @@ pub fn run_cli(source: &[u8], stdin: Stdin, interpreted: bool, out_cap: usize, t
 }
 
 pub fn run_cli_limited(source: &[u8], stdin: Stdin, interpreted: bool, out_cap: usize, timeout_ms: u64, limits: Limits) -> CliOut {
+    run_bin_limited(CLI_BIN, source, stdin, interpreted, out_cap, timeout_ms, limits)
+}
+
+/// the emulator built from the working tree in cargo's default (unoptimised) profile; built by the dispatcher only for
+/// the checks that ask how deep the emulator's own recursion may go (stack frames are several times larger there)
+pub const CLI_DEBUG_BIN: &str = "/verif/.build/cli-debug/debug/emulator_8086";
+
+pub fn run_bin_limited(bin: &str, source: &[u8], stdin: Stdin, interpreted: bool, out_cap: usize, timeout_ms: u64, limits: Limits) -> CliOut {
     let n = COUNTER.fetch_add(1, Ordering::Relaxed);
     let _ = std::fs::create_dir_all(TMP_DIR);
     let base = format!("{}/c{}-{}", TMP_DIR, std::process::id(), n);
@@ -90,7 +98,7 @@ pub fn run_cli_limited(source: &[u8], stdin: Stdin, interpreted: bool, out_cap: 
         Ok(f) => f,
         Err(e) => return CliOut { stdout: vec![], stderr: vec![], status: Status::SpawnError(format!("{}", e)), wall_ms: 0 },
     };
-    let mut cmd = Command::new(CLI_BIN);
+    let mut cmd = Command::new(bin);
     if interpreted {
         cmd.arg("-i");
     }
